@@ -480,12 +480,12 @@ func DefaultInitAllow(path string) int {
 		return 1
 	}
 	switch path {
-	case "errors", "sync", "sync/atomic", "google.golang.org/protobuf/internal/errors", "google.golang.org/protobuf/internal/detrand", "internal/cpu", "internal/goarch", "internal/goos", "internal/godebug", "runtime/internal/sys", "internal/race":
+	case "errors", "context", "sync", "sync/atomic", "google.golang.org/protobuf/internal/errors", "google.golang.org/protobuf/internal/detrand", "internal/cpu", "internal/goarch", "internal/goos", "internal/godebug", "runtime/internal/sys", "internal/race":
 		return 2
 	}
 	switch path {
 	case "strconv", "unicode/utf8", "unicode/utf16", "math", "math/bits", "encoding/binary", "bytes", "strings", "sort",
-		"encoding/base64", "io", "unsafe", "internal/bytealg", "internal/itoa", "context", "unicode",
+		"encoding/base64", "io", "unsafe", "internal/bytealg", "internal/itoa", "unicode",
 		"google.golang.org/protobuf/encoding/protowire", "internal/byteorder":
 		return 1
 	}
